@@ -6,7 +6,10 @@
 //! Rules implemented: release stores and release RMWs publish the thread's clock on the location;
 //! a relaxed store ends the release sequence; RMWs of any ordering continue it; acquire loads,
 //! acquire RMWs and failed CAS with an acquire failure ordering join the published clock;
-//! spawn and join edges.
+//! fences: a release fence makes every later store / RMW of that thread (of any ordering) publish
+//! the clock the thread had at the fence; what a relaxed load (or relaxed RMW, or failed CAS) read
+//! is remembered per thread and joined at its next acquire fence; a SeqCst fence is both;
+//! unlock / lock of a simulated mutex are a release / acquire on the mutex; spawn and join edges.
 
 use std::collections::BTreeMap;
 use std::sync::atomic::Ordering;
@@ -18,6 +21,8 @@ pub struct HbStats {
     pub cell_reads: u64,
     pub cell_writes: u64,
     pub cas_fail: u64,
+    pub fences: u64,
+    pub lock_edges: u64,
 }
 
 #[derive(Clone, Debug)]
@@ -37,6 +42,10 @@ pub struct HbTracker {
     clocks: Vec<Vec<u32>>,
     rel: BTreeMap<u64, Vec<u32>>,
     cells: BTreeMap<u64, CellState>,
+    /// per task: its clock at its last release fence
+    rel_fence: Vec<Option<Vec<u32>>>,
+    /// per task: what its loads so far have read (joined into its clock by an acquire fence)
+    acq_pending: Vec<Vec<u32>>,
     pub violations: Vec<String>,
     pub stats: HbStats,
 }
@@ -68,7 +77,7 @@ impl Default for HbTracker {
 
 impl HbTracker {
     pub fn new() -> HbTracker {
-        HbTracker { clocks: Vec::new(), rel: BTreeMap::new(), cells: BTreeMap::new(), violations: Vec::new(), stats: HbStats::default() }
+        HbTracker { clocks: Vec::new(), rel: BTreeMap::new(), cells: BTreeMap::new(), rel_fence: Vec::new(), acq_pending: Vec::new(), violations: Vec::new(), stats: HbStats::default() }
     }
 
     fn ensure(&mut self, t: usize) {
@@ -83,6 +92,12 @@ impl HbTracker {
         }
         if self.clocks[t][t] == 0 {
             self.clocks[t][t] = 1;
+        }
+        while self.rel_fence.len() <= t {
+            self.rel_fence.push(None);
+        }
+        while self.acq_pending.len() <= t {
+            self.acq_pending.push(Vec::new());
         }
     }
 
@@ -120,10 +135,13 @@ impl HbTracker {
     pub fn on_load(&mut self, t: usize, loc: u64, ord: Ordering) {
         self.ensure(t);
         self.stats.atomic_ops += 1;
-        if is_acquire(ord) {
-            if let Some(r) = self.rel.get(&loc).cloned() {
+        if let Some(r) = self.rel.get(&loc).cloned() {
+            if is_acquire(ord) {
                 join_into(&mut self.clocks[t], &r);
                 self.stats.acquire_joins += 1;
+            } else {
+                // a later acquire fence of this thread synchronises with the release it read from
+                join_into(&mut self.acq_pending[t], &r);
             }
         }
     }
@@ -133,6 +151,9 @@ impl HbTracker {
         self.stats.atomic_ops += 1;
         if is_release(ord) {
             self.rel.insert(loc, self.clocks[t].clone());
+        } else if let Some(f) = self.rel_fence[t].clone() {
+            // relaxed store after a release fence: publishes what the thread knew at the fence
+            self.rel.insert(loc, f);
         } else {
             self.rel.remove(&loc);
         }
@@ -142,18 +163,56 @@ impl HbTracker {
     pub fn on_rmw(&mut self, t: usize, loc: u64, ord: Ordering) {
         self.ensure(t);
         self.stats.atomic_ops += 1;
-        if is_acquire(ord) {
-            if let Some(r) = self.rel.get(&loc).cloned() {
+        if let Some(r) = self.rel.get(&loc).cloned() {
+            if is_acquire(ord) {
                 join_into(&mut self.clocks[t], &r);
                 self.stats.acquire_joins += 1;
+            } else {
+                join_into(&mut self.acq_pending[t], &r);
             }
         }
         if is_release(ord) {
             let mine = self.clocks[t].clone();
             let e = self.rel.entry(loc).or_default();
             join_into(e, &mine);
+        } else if let Some(f) = self.rel_fence[t].clone() {
+            let e = self.rel.entry(loc).or_default();
+            join_into(e, &f);
         }
         self.tick(t);
+    }
+
+    pub fn on_fence(&mut self, t: usize, ord: Ordering) {
+        self.ensure(t);
+        self.stats.fences += 1;
+        if is_acquire(ord) {
+            let p = self.acq_pending[t].clone();
+            if !p.is_empty() {
+                join_into(&mut self.clocks[t], &p);
+                self.stats.acquire_joins += 1;
+            }
+        }
+        if is_release(ord) {
+            self.rel_fence[t] = Some(self.clocks[t].clone());
+        }
+        self.tick(t);
+    }
+
+    /// Unlock of a simulated mutex: a release on the mutex.
+    pub fn on_unlock(&mut self, t: usize, res: u64) {
+        self.ensure(t);
+        self.stats.lock_edges += 1;
+        self.rel.insert(res | (1u64 << 62), self.clocks[t].clone());
+        self.tick(t);
+    }
+
+    /// Successful lock of a simulated mutex: an acquire on the mutex.
+    pub fn on_lock(&mut self, t: usize, res: u64) {
+        self.ensure(t);
+        if let Some(r) = self.rel.get(&(res | (1u64 << 62))).cloned() {
+            join_into(&mut self.clocks[t], &r);
+            self.stats.acquire_joins += 1;
+        }
     }
 
     pub fn on_cas_fail(&mut self, t: usize, loc: u64, fail_ord: Ordering) {
